@@ -12,7 +12,8 @@ Inductive prim :=
   | PrBytesRef | PrBytesSet | PrBytesLength
   | PrStringCursorRef | PrStringCursorSet | PrStringCursorNext | PrStringCursorPrev
   | PrStringCursorEnd | PrStringLength
-  | PrCar | PrCdr | PrSetCar | PrSetCdr | PrMakeVector.
+  | PrCar | PrCdr | PrSetCar | PrSetCdr | PrMakeVector
+  | PrCharToInt | PrIntToChar | PrCharUpcase | PrCharDowncase | PrWriteChar | PrReadChar | PrPeekChar.
 
 (** MustValue: the call is inside the domain, an error would be wrong.
     MustError: no in-bounds execution exists; anything but an error object violates C01.
@@ -36,6 +37,10 @@ Definition typed (t : tag) (v : val) (mutating : bool) : verdict :=
   | Some o => if mutating && o_imm o then Either else MustValue
   | None => MustError
   end.
+
+(** port operations: a port of the right direction may still answer an error (closed port, I/O failure) *)
+Definition typed_io (t : tag) (v : val) : verdict :=
+  match is_obj t v with Some _ => Either | None => MustError end.
 
 (** allocation sizes up to this many elements must succeed; above, running out of heap is allowed *)
 Definition small_alloc : Z := 65536.
@@ -68,5 +73,13 @@ Definition spec (p : prim) (args : list val) : verdict :=
   | PrSetCar, [v; _] => typed TPair v true
   | PrSetCdr, [v; _] => typed TPair v true
   | PrMakeVector, [Fix n; _] => if n <? 0 then MustError else if n <=? small_alloc then MustValue else Either
+  | PrCharToInt, [Chr _] => MustValue
+  | PrIntToChar, [Fix _] => MustValue      (* ANY fixnum: integer->char does not test for a scalar value; what the
+                                              string opcodes guarantee for such characters: PrimProofs.prim_utf8_set_safe *)
+  | PrCharUpcase, [Chr _] => MustValue
+  | PrCharDowncase, [Chr _] => MustValue
+  | PrWriteChar, [Chr _; p] => typed_io TOPort p
+  | PrReadChar, [p] => typed_io TIPort p
+  | PrPeekChar, [p] => typed_io TIPort p
   | _, _ => MustError
   end.
